@@ -58,6 +58,11 @@ func c17(c *Ctx) {
 		wr := "litefs.(*WALReader).ReadFrame"
 		zero := G(`\(0 == encoding/binary\.\(bigEndian\)\.Uint32\(encoding/binary\.BigEndian, .*\[0:\]\)\)|\(encoding/binary\.\(bigEndian\)\.Uint32\(encoding/binary\.BigEndian, .*\[0:\]\) == 0\)`, false)
 		c.Guarded("wal-valid/frame-page-nonzero", wr, p.SuccessReturn, gs(zero), 1, "a WAL frame is accepted only when its page number is not zero", "SQLite never accepts such a frame; the checkpoint would compute a negative offset after other frames were already copied")
+		c.NoPathFromEdge("wal-valid/no-header-is-no-frames", "litefs.(*DB).readWALPageOffsets", GP("errors.As(litefs.(*WALReader).ReadHeader(@@), @@invalidWALHeaderError@@)", true), func(in ssa.Instruction) bool {
+			r, ok := in.(*ssa.Return)
+			return ok && len(r.Results) == 3 && p.Render(returnedValue(r, 2)) != "nil"
+		}, 1, "a WAL file that does not begin with a WAL header (wrong magic, impossible page size) yields no frames and no error",
+			"F58: SQLite treats such a file as a WAL without valid frames; LiteFS refused to start on it")
 		c.walCommitScanPageNonzero("wal-valid/commit-scan")
 		// checkpoint: WAL page size equals the database's (or teaches it)
 		ro := "litefs.(*DB).readWALPageOffsets"
